@@ -44,10 +44,13 @@ Inductive rt_event :=
 | RtRst (sess mid : Z)                                     (* RST with that mid read from sess *)
 | RtNon (sess mid : Z) (tok : list Z)                      (* NON response with that token (and any
                                                               mid: the peer's id space) from sess *)
+| RtDisconnect (sess reason : Z)                           (* coap_session_disconnected(sess, reason),
+                                                              reason not ICMP_ISSUE *)
 | RtDump.                                                  (* observation of the queue *)
 
 Definition rt_NACK_TOO_MANY_RETRIES : Z := 0.
 Definition rt_NACK_RST : Z := 2.
+Definition rt_NACK_ICMP_ISSUE : Z := 4.
 
 Inductive rt_out :=
 | RoTx (t uid sess : Z) (bytes : list Z) (cnt tmo : Z)
@@ -174,6 +177,34 @@ Definition rt_non (st : rt_state) (s : Z) (tok : list Z) : rt_state * list rt_ou
   let (st1, o) := rt_fire_all (rt_set_q st q') in
   (st1, map (fun n => RoAcked (rs_now st) (qn_uid n)) rm ++ o).
 
+(* coap_session_disconnected(session, reason) for reason <> COAP_NACK_ICMP_ISSUE on a datagram
+   session with an empty delay queue: coap_cancel_session_messages removes every queued message
+   of the session and calls the NACK handler once for each (as repaired: before, the first one
+   was reported twice - rt_disconnect_old); if the session has nothing queued the handler is
+   called once without PDU and with mid 0.  No prepare call follows. *)
+Definition rt_sess_match (s : Z) (n : sq_node) : bool := qn_sess n =? s.
+
+Definition rt_nack_of (t reason : Z) (n : sq_node) : rt_out :=
+  RoNack t (qn_uid n) (qn_sess n) reason (qn_mid n) (qn_cnt n) (qn_max n).
+
+Definition rt_disconnect (st : rt_state) (s reason : Z) : rt_state * list rt_out :=
+  let (rm, q') := sq_cancel (rt_sess_match s) (rs_q st) in
+  (rt_set_q st q',
+   match rm with
+   | [] => [RoNackNoPdu (rs_now st) s reason 0]
+   | _ => map (rt_nack_of (rs_now st) reason) rm
+   end).
+
+(* the function as it was: "take the first one" reported the first queued message of the session
+   before the loop reported all of them *)
+Definition rt_disconnect_old (st : rt_state) (s reason : Z) : rt_state * list rt_out :=
+  let (rm, q') := sq_cancel (rt_sess_match s) (rs_q st) in
+  (rt_set_q st q',
+   match rm with
+   | [] => [RoNackNoPdu (rs_now st) s reason 0]
+   | n :: _ => rt_nack_of (rs_now st) reason n :: map (rt_nack_of (rs_now st) reason) rm
+   end).
+
 Definition rt_step (st : rt_state) (ev : rt_event) : rt_state * list rt_out :=
   match ev with
   | RtAdvance dt => (rt_mk_state (rs_now st + dt) (rs_base st) (rs_q st) (rs_uid st), [])
@@ -182,6 +213,7 @@ Definition rt_step (st : rt_state) (ev : rt_event) : rt_state * list rt_out :=
   | RtAck s m => rt_ack st s m
   | RtRst s m => rt_rst st s m
   | RtNon s _ tok => rt_non st s tok
+  | RtDisconnect s reason => rt_disconnect st s reason
   | RtDump => (st, [RoDump (rs_now st) (sq_abs (rs_base st) (rs_q st))])
   end.
 
